@@ -34,6 +34,17 @@ PROPS["C15"] = {
     "level_text": "IsPermanentError/IsTransientError (with errors.Is/As following the real Is/Unwrap methods of the library's and nats.go's error types) are executed symbolically on every error shape in the bound with all texts symbolic; exclusivity, totality, the fixed classes (also wrapped) and the classification of the real NATS client's conflict/time-out values are decided by z3 for all texts, not for example messages.",
     "level_note": "Error shapes bounded by wrap depth (1 quick / 2 thorough) and the listed leaf and wrapper kinds; the contains-abstraction above is part of the trusted base; counterexamples are replayed natively with synthesised texts.",
 }
+PROPS["C17"] = {
+    "groups": [{"run": "^vpH_C17_backoff$", "args": ["-solver", "z3-new", "-timeout-ms", "30000"]},
+               {"run": "^vpH_C17_(backoff_conc|breaker_step|T_retry|T_breaker_seq|T_round)$", "args": ["-solver", "z3-new"]}],
+    "bounds": {"quick": "CalculateBackoff: InitialBackoff, MaxBackoff in [0, 1 year], multiplier in [1, 10^6], jitter in [0,1], attempt any non-negative int (math.Pow uninterpreted: finite in [1,MaxFloat64] or +Inf); float64 = Real with relative rounding error 2^-53 per operation; plus exact evaluation for multipliers {1.1,2} x attempts {0,1,10,33,1100}. RetryWithBackoff: MaxAttempts 0..4 (0 bounded by 6 invocations), every outcome sequence over {nil, permanent, transient}, optional cancellation at a symbolic instant within 2 s, default backoff config. CircuitBreaker: one Call from an arbitrary reachable state (threshold 1..10^6, cooldown and elapsed time up to a year: an inductive step covering histories of any length) plus sequences of 2*threshold+2 calls for threshold 1..3 with symbolic gaps. Acquisition round: one round of 4 failing Creates."},
+    "outside": "durations above one year (float->int64 overflow at 2^63 ns); multipliers below 1; negative MaxAttempts; RetryWithBackoff with a CircuitBreaker attached",
+    "assumptions": ["math.Pow(x,y): y=0 or x=1 gives 1, y=1 gives x, result >= x for x,y >= 1, finite results within [1, MaxFloat64]; the +Inf branch is explored for base >= 2, exponent >= 1024",
+                    "rand.Float64() is an arbitrary real in [0,1); native replays of jitter-dependent counterexamples are repeated up to 300 times because the library's random source cannot be controlled",
+                    "float->int conversion of NaN / out-of-range values yields math.MinInt64 (amd64)"],
+    "level_text": "The real CalculateBackoff, RetryWithBackoff, CircuitBreaker.Call and attemptAcquireWithRetry are executed symbolically: configuration values, attempt numbers, random draws, operation outcomes, call instants and the clock are solver variables, and band, non-negativity, invocation-count, wait and breaker state obligations are decided by z3 (5.1.0, nonlinear real arithmetic) for all of them within the bounds.",
+    "level_note": "float64 arithmetic is modelled as real arithmetic with a relative rounding error per operation (full IEEE encoding does not finish); math.Pow is uninterpreted under the stated contract; trusted: front end, executor, z3.",
+}
 PROPS["S00"] = {"groups": [{"run": "^vpH_S00_"}], "level_text": "engine smoke test", "level_note": ""}
 
 NOT_APPLICABLE = {}
